@@ -2509,7 +2509,10 @@ def c05tsha_partA(gen_text, variant='256'):
 
 
 def c05tsha1_module(repo=None, workdir='/tmp'):
-    """usual/crypto/sha1.c: sha1_core(ctx, buf) — 80 macro-expanded rounds on the 16-word circular
+    """NOT HOOKED INTO ANY CHECK (kept as the starting point): the translation works (799 `let`s),
+    but the folding script of c05tsha1_partA did not finish type-checking within 20 minutes
+    (cause not found in the time available; the same script shape works for sha256 / sha512).
+    usual/crypto/sha1.c: sha1_core(ctx, buf) — 80 macro-expanded rounds on the 16-word circular
     buffer `buf` (an array parameter; the `buf` field of the context is not part of the struct view:
     the function reaches it only through the parameter), rol32 of usual/bits.h, bswap32 of endian.h"""
     repo = repo or _default_repo()
